@@ -44,8 +44,8 @@ ASSUMPTIONS = [
 ]
 REAL_STUB = {"real": ["Node.shard / set_pipeline_stage / sharding_of", "Model.add/remove_device_configuration", "_multi_device check", "serde multi-device fields", "_cloner remapping"], "stub": [], "harness_extension_points": []}
 
-OPS = ["add_cfg", "remove_cfg", "shard", "shard_invalid", "stage", "stage_invalid", "rename_value", "rename_node", "replace_input", "resize_inputs", "resize_outputs", "clone", "reload", "add_node", "remove_cfg_name", "shadow_rename", "annotate_direct"]
-WEIGHTS = [4, 3, 16, 8, 5, 2, 6, 3, 8, 3, 4, 3, 4, 2, 2, 4, 5]
+OPS = ["add_cfg", "remove_cfg", "shard", "shard_invalid", "stage", "stage_invalid", "rename_value", "rename_node", "replace_input", "resize_inputs", "resize_outputs", "clone", "reload", "add_node", "remove_cfg_name", "shadow_rename", "annotate_direct", "inline"]
+WEIGHTS = [4, 3, 16, 8, 5, 2, 6, 3, 8, 3, 4, 3, 4, 2, 2, 4, 5, 3]
 
 
 def gen_case(run_seed: int, tier: str, index: int = 0) -> dict:
@@ -113,11 +113,7 @@ def check_serialized(model) -> tuple | None:
 
     collect(proto.graph)
     for fp in proto.functions:
-        for np_ in fp.node:
-            by_name.setdefault(np_.name, []).append(np_)
-            for a in np_.attribute:
-                if a.HasField("g"):
-                    collect(a.g)
+        collect(fp)  # (a FunctionProto has .node like a GraphProto; bodies of list-of-graphs attributes included)
     cfg_names = [c.name for c in proto.configuration] if hasattr(proto, "configuration") else None
     if cfg_names is not None and sorted(cfg_names) != sorted(c.name for c in model.device_configurations):
         return ("serialized-configurations", f"serialized configuration names {cfg_names} != model's {[c.name for c in model.device_configurations]}")
@@ -277,6 +273,31 @@ def run_case(case: dict) -> dict:
                         before = snapshot.snapshot(w, tensors=False)
                 node.shard(v, **kw)
                 inc("shard_applied")
+            elif op == "inline":
+                # function inlining copies the (annotated) nodes of a function body into the calling graph
+                if not model.functions:
+                    continue
+                from onnx_ir.passes.common import InlinePass
+
+                # a function body that shards one of the function's PARAMETERS of unknown rank says nothing about the rank of
+                # the argument it will be inlined with: such a model is inconsistent by itself (like a rank change of a
+                # sharded value, which the workload also stays away from)
+                risky = any(
+                    any(sp.value is fi for fi in f.inputs) and sp.value.shape is None
+                    for f in model.functions.values() for x in f.all_nodes() for dc in x.device_configurations for sp in dc.sharding_specs
+                )  # fmt: skip
+                if risky:
+                    inc("inline_skipped_sharded_parameter_of_unknown_rank")
+                    continue
+                had_f = sum(1 for f in model.functions.values() for x in f.all_nodes() if x.device_configurations)
+                try:
+                    InlinePass()(model)
+                except Exception:  # noqa: BLE001 - earlier edits (resized inputs of a call node ...) can make a call site un-inlinable
+                    inc("inline_refused")
+                    continue
+                inc("inline")
+                if had_f:
+                    inc("reach_inlined_annotated_function_nodes")
             elif op == "annotate_direct":
                 # the record types themselves are public: a sharding spec that replicates shards over device GROUPS
                 # (negative device entries resolved through index_to_device_group_map) and shards a symbolic dimension
